@@ -92,6 +92,8 @@ type Branch struct {
 	Prefix  int  // chunks a stream condition reads before deciding
 	Data    bool // carries data (graphs) or control only (workflows)
 	Script  [][]string
+	// FailEval: fault, the condition returns an error at its (FailEval-1)-th evaluation (0: never)
+	FailEval int
 }
 
 type Plan struct {
